@@ -371,12 +371,23 @@ class ColorService:
             document.rtf_page_footer,
         ]
 
+        border_color_attrs = (
+            "border_color_left",
+            "border_color_right",
+            "border_color_top",
+            "border_color_bottom",
+            "border_color_first",
+            "border_color_last",
+        )
+
         for component in components:
             if component:
                 extract_colors_from_attribute(getattr(component, "text_color", None))
                 extract_colors_from_attribute(
                     getattr(component, "text_background_color", None)
                 )
+                for attr_name in border_color_attrs:
+                    extract_colors_from_attribute(getattr(component, attr_name, None))
 
         # Collect colors from column headers
         if document.rtf_column_header:
@@ -392,6 +403,10 @@ class ColorService:
                             extract_colors_from_attribute(
                                 getattr(header, "text_background_color", None)
                             )
+                            for attr_name in border_color_attrs:
+                                extract_colors_from_attribute(
+                                    getattr(header, attr_name, None)
+                                )
             else:
                 # Flat format
                 for header in headers:
@@ -402,6 +417,10 @@ class ColorService:
                         extract_colors_from_attribute(
                             getattr(header, "text_background_color", None)
                         )
+                        for attr_name in border_color_attrs:
+                            extract_colors_from_attribute(
+                                getattr(header, attr_name, None)
+                            )
 
         return list(used_colors)
 
